@@ -389,3 +389,50 @@ func propertyStoreRules(c *core.Ctx, r *core.Report, rule string) {
 	r.Check(gotC == "p1 p2 p4" && gotF == "p3 p5" && okAll, rule, cons, c.FnPos(set),
 		fmt.Sprintf("every recorded property is read back exactly once, component and configuration properties apart, in recording order within a kind (component=[%s] configuration=[%s] all=%v)", gotC, gotF, gotA))
 }
+
+// stageOptInRules: a built-in stage takes part for every component: its PostProcessAfterInstantiation - its own or the
+// one it inherits - answers (true, nil) whatever the component is (interpreted on an unknown component and name; a
+// stage that looks at the component to decide leaves the model and is reported as undecided).
+func stageOptInRules(c *core.Ctx, r *core.Report, rule string, roles ...string) {
+	n := 0
+	for _, p := range builtinProcessors(c) {
+		if !p.Registered {
+			continue
+		}
+		has := false
+		for _, ro := range roles {
+			has = has || p.Roles[ro]
+		}
+		if !has {
+			continue
+		}
+		n++
+		cons := "stage-takes-part:" + p.Name()
+		fn := c.Method(types.NewPointer(p.T), "PostProcessAfterInstantiation")
+		if fn == nil {
+			r.Undecided(rule, cons, c.Pos(p.T.Obj().Pos()), "PostProcessAfterInstantiation not found in the method set of the stage")
+			continue
+		}
+		bad := ""
+		runs, und := runTable(c, fn, func() (absint.Oracle, []absint.Value, []absint.Value) {
+			t := newTbl(c)
+			return t, []absint.Value{absint.NewTok("proc", "processor"), absint.NewTok("component", "any"), absint.NewTok("name", "key")}, nil
+		}, func(ip *absint.Interp, out absint.Outcome) {
+			ok := out.Panic == nil && len(out.Ret) == 2
+			if ok {
+				b, isB := out.Ret[0].(absint.Bool)
+				_, isNil := out.Ret[1].(absint.Nil)
+				ok = isB && bool(b) && isNil
+			}
+			if !ok {
+				bad = "answers " + showOutcome(out)
+			}
+		})
+		if und != "" {
+			r.Undecided(rule, cons, c.FnPos(fn), "abstract interpretation left the model: "+und)
+			continue
+		}
+		r.Check(bad == "", rule, cons, c.FnPos(fn), fmt.Sprintf("the stage takes part for every component: PostProcessAfterInstantiation answers (true, nil) whatever the component (%d abstract runs) %s", runs, bad))
+	}
+	r.Floor(rule, "registered stages with role "+strings.Join(roles, "/"), n, 1)
+}
